@@ -80,3 +80,8 @@ package sub
 //@ func (*context).unsubscribe
 //@   ensures cap(c.recvQ) == c.recvQLen || c.recvQ == old(c.recvQ)
 //@   ensures c.recvQLen == old(c.recvQLen)
+// ---- generated wake-on-close contracts (from `govc sites -select`) ----
+//@ func (*context).RecvMsg
+//@   before select#1 assert selwaits(c.closeQ)
+//@
+// ---- end generated wake-on-close contracts ----
